@@ -363,6 +363,36 @@ impl Part for Select {
                 }
             }
         }
+        // Oracle 3: a default #[ghost] without a value that every counterpart shadows with its own dedicated #[ghost(T| {..})]
+        // applies to no conversion at all: the input stays accepted and no impl changes
+        if t.chance(1, 6) {
+            let mut base: Vec<Marked> = g.marked.iter().filter(|m| !m.ghost).cloned().collect();
+            for (ci, c) in g.cps.iter().enumerate() {
+                let marker = format!("{}", 6000 + ci);
+                base.push(Marked { instr: Instr::Ghost { name: "ghost".into(), ded: Some(c.clone()), action: Some(format!("{{ {} }}", marker)) }, marker, ghost: true, kinds: ghost_kinds("ghost"), fallible: false, ded: Some(c.clone()) });
+            }
+            let mut with_shadowed = base.clone();
+            let pos = t.below(with_shadowed.len() + 1);
+            with_shadowed.insert(pos, Marked { instr: Instr::Ghost { name: "ghost".into(), ded: None, action: None }, marker: "none".into(), ghost: true, kinds: ghost_kinds("ghost"), fallible: false, ded: None });
+            let (t1, t2) = (build_item(&g.cps, &base, &mut Tape::new(&[])).render(), build_item(&g.cps, &with_shadowed, &mut Tape::new(&[])).render());
+            if let (Ok(d1), Ok(d2)) = (parse_input(&t1), parse_input(&t2)) {
+                if let Ok(o1) = expand_tokens(&d1) {
+                    labels.push("shadowed-default-ghost-checked".into());
+                    let same = match expand_tokens(&d2) {
+                        Ok(o2) => o1.to_string() == o2.to_string(),
+                        Err(_) => false,
+                    };
+                    if !same {
+                        return CaseReport {
+                            key: text.clone(),
+                            nontrivial,
+                            labels,
+                            verdict: ctx.fail_or_known("C05", None, "a default #[ghost] that every counterpart shadows with a dedicated one changes the outcome".into(), json!({"before_input": t1, "after_input": t2, "after": expand_tokens(&d2).map(|x| x.to_string()).unwrap_or_else(|e| e.short())})),
+                        };
+                    }
+                }
+            }
+        }
         CaseReport { key: text, nontrivial, labels, verdict: Verdict::Pass }
     }
 }
